@@ -9,8 +9,8 @@ use std::time::Duration;
 pub fn def() -> CheckDef {
     CheckDef {
         id: "C12",
-        functions: &["strict::functor::{define_map_arrow,spider_map_arrow,to_operations,map_half_spider}", "strict::functor::identity::Identity", "FiniteFunction::injections", "strict::OpenHypergraph::{compose,tensor,spider,identity,tensor_operations}", "IndexedCoproduct::{map_semifinite,elements}", "Operations::new", "lax::functor::dyn_functor::{define_map_arrow,DynFunctor::{map_object,map_operations,map_arrow},Identity}", "lax::OpenHypergraph::{to_strict,from_strict,tensor_assign}"],
-        bounds_quick: "lax half: lax diagrams with <=3 nodes, <=2 hyperedges, <=1 pending pair (<=6 node references; wirings enumerated, labels symbolic) x seven lax functor families (incl. images that carry pending unifications); strict core: diagrams W<=2, X<=1, S,T<=2, interfaces<=2 (whole box) x six functor families: identity (the crate's), doubling A->[A,A], erasing A->[], label-dependent lengths 0/1/2, composite image (two operations in sequence), spider-only image; preservation of ; (x) dagger id twist on pairs W<=1..2, X<=1 for identity and doubling",
+        functions: &["strict::functor::{define_map_arrow,spider_map_arrow,to_operations,map_half_spider}", "strict::functor::identity::Identity", "FiniteFunction::injections", "strict::OpenHypergraph::{compose,tensor,spider,identity,tensor_operations}", "IndexedCoproduct::{map_semifinite,elements}", "Operations::new", "lax::functor::{try_define_map_arrow,map_arrow_witness} (native lax path, subset of the C13 jobs)", "lax::functor::dyn_functor::{define_map_arrow,DynFunctor::{map_object,map_operations,map_arrow},Identity}", "lax::OpenHypergraph::{to_strict,from_strict,tensor_assign}"],
+        bounds_quick: "native lax path: the first 240 C13 jobs (quotient-free lax diagrams, <=3 nodes); lax half: lax diagrams with <=3 nodes, <=2 hyperedges, <=1 pending pair (<=6 node references; wirings enumerated, labels symbolic) x seven lax functor families (incl. images that carry pending unifications); strict core: diagrams W<=2, X<=1, S,T<=2, interfaces<=2 (whole box) x six functor families: identity (the crate's), doubling A->[A,A], erasing A->[], label-dependent lengths 0/1/2, composite image (two operations in sequence), spider-only image; preservation of ; (x) dagger id twist on pairs W<=1..2, X<=1 for identity and doubling",
         bounds_thorough: "W<=3, X<=2, S,T<=3",
         jobs,
         budget_s: (170, 1500),
@@ -213,8 +213,12 @@ pub fn jobs(tier: Tier, seed: u64) -> Vec<Job> {
     let mut strict: Vec<Job> = keyed.into_iter().map(|(c, _, k)| case_job(k, cfg.clone(), per_job, c <= 6 && tier == Tier::Quick)).collect();
     // lax half: the lax Functor trait through dyn_functor (lax tier: wirings enumerated, labels symbolic)
     let mut lax = lax_jobs(tier);
+    // the native lax path (try_define_map_arrow / map_arrow_witness) is functor application too: a subset of
+    // the C13 jobs, whose oracle compares with the same generator-wise substitution
+    let mut native: Vec<Job> = super::c13::jobs(tier, seed).into_iter().filter(|j| !j.name.contains(" ids[")).take(240).map(|mut j| { j.mandatory = false; j }).collect();
     strict.reverse();
     lax.reverse();
+    native.reverse();
     let mut out = vec![];
     while !strict.is_empty() || !lax.is_empty() {
         for _ in 0..3 {
@@ -225,7 +229,11 @@ pub fn jobs(tier: Tier, seed: u64) -> Vec<Job> {
         if let Some(j) = lax.pop() {
             out.push(j);
         }
+        if let Some(j) = native.pop() {
+            out.push(j);
+        }
     }
+    out.extend(native.into_iter().rev());
     out
 }
 
